@@ -594,6 +594,23 @@ package moss
 //@   requires @notReadOnly !readOnlyMode()
 //@   modifies *
 
+// Compaction without incoming data (S28): the stand-in for the incoming stack
+// has no segments, the incarnation of the footer and exactly its children
+// (a child missing here would be dropped by mergeSegStacks as deleted).
+//@ func emptyStackLike(footer *Footer, options *CollectionOptions) *segmentStack
+//@   props C07 C11 C04
+//@   requires footer != nil
+//@   ensures @shape result != nil && fresh(result) && len(result.a) == 0 && result.incarNum == footer.incarNum && result.lowerLevelSnapshot == nil
+//@   ensures @children forall c string :: has(footer.ChildFooters, c) ==> has(result.childSegStacks, c) && result.childSegStacks[c].incarNum == footer.ChildFooters[c].incarNum
+//@   ensures @noOthers forall c string :: has(result.childSegStacks, c) ==> has(footer.ChildFooters, c)
+//@   loop 1: modifies ss.childSegStacks
+//@   loop 1: invariant ss != nil && fresh(ss) && len(ss.a) == 0 && ss.incarNum == footer.incarNum && ss.lowerLevelSnapshot == nil
+//@   loop 1: invariant ss.childSegStacks != nil ==> sinceLoop(ss.childSegStacks)
+//@   loop 1: invariant forall c string :: visited(c) ==> has(footer.ChildFooters, c)
+//@   loop 1: invariant forall c string :: visited(c) ==> has(ss.childSegStacks, c)
+//@   loop 1: invariant forall c string :: visited(c) ==> ss.childSegStacks[c].incarNum == footer.ChildFooters[c].incarNum
+//@   loop 1: invariant forall c string :: has(ss.childSegStacks, c) ==> visited(c)
+
 // A failed round never schedules a file for removal that existed before it
 // (for a partial compaction the file it writes to is the live data file);
 // a failed full compaction schedules the file it started for removal.
